@@ -96,6 +96,7 @@ type checkRun struct {
 	notes     map[string]bool
 	known     *KnownFile
 	static    []*StaticResult
+	deferred  []string
 	start     time.Time
 }
 
@@ -173,6 +174,18 @@ func (r *checkRun) run() int {
 	for _, sc := range ps.Static {
 		res := runStatic(prog, sc)
 		r.static = append(r.static, res)
+	}
+	if r.tier != "thorough" {
+		// clauses labelled slow_* are discharged in the thorough tier only (they need more than the quick budget)
+		var keep []*Obligation
+		for _, o := range r.obls {
+			if strings.Contains(o.Name, "#ensures.slow_") || strings.Contains(o.Name, ".inv.slow_") || strings.Contains(o.Name, "#conclude.slow_") {
+				r.deferred = append(r.deferred, o.Name)
+				continue
+			}
+			keep = append(keep, o)
+		}
+		r.obls = keep
 	}
 	r.macroCovers()
 	r.applyKnownFindings()
@@ -478,6 +491,7 @@ func (r *checkRun) report() int {
 		"functions_under_contract": r.funcs, "by_backend": byBackend,
 		"solver_time_s": map[string]float64{"total": round2(totalT), "max": round2(maxT)},
 		"covers": covers, "covers_undecided": coverUndecided, "samples": samples,
+		"deferred_to_thorough": r.deferred,
 		"checker_cmd": fmt.Sprintf("bin/pverif check %s --tier %s", id, r.tier),
 		"trusted_base": append(sortedSet(r.trusted), "VC generator pverif (this repository) over golang.org/x/tools/go/ssa v0.29.0", "SMT solvers: z3 4.8.12, z3 5.1.0 (z3-new), cvc5 1.0"),
 		"unverified_surroundings": r.prop.Surround, "not_decided": r.prop.NotDecided,
